@@ -569,7 +569,7 @@ def load_corpus():
 
 SIZES = {  # random patterns, short decimals sampled (None = all), long decimals, midpoint doubles, lex programs
     "quick": (2600, 2500, 500, 260, 500),
-    "search": (9000, 9000, 2500, 1200, 2500),
+    "search": (5200, 5000, 1200, 600, 1200),
     "thorough": (20000, None, 6000, 3000, 6000),
 }
 
